@@ -89,7 +89,22 @@ int main() {
             int a = e->is_null() ? 0 : 1;
             sprintf( buf, "%d", e->asInt() );
             char kk[2] = { k, 0 };
-            tail( in, kk, a, a ? buf : "-", err );
+            // what the writer gives for the value just read (an extra field after the usual ones)
+            std::string w;
+            e->STEPwrite( w );
+            std::string vv = a ? buf : "-";
+            vv += " ";
+            // tail() prints: kind assigned value severity remaining eof fail ; the written text is appended to the value field position 8
+            {
+                int eof = in.eof() ? 1 : 0, fail = in.fail() ? 1 : 0;
+                in.clear();
+                std::string restbuf;
+                char c2;
+                while( in.get( c2 ) ) {
+                    restbuf += c2;
+                }
+                printf( "%s %d %s %d %d %d %d %s\n", kk, a, a ? buf : "-", ( int )err.severity(), ( int )restbuf.size(), eof, fail, w.empty() ? "-" : w.c_str() );
+            }
         } else if( k == 'T' ) {
             std::istringstream in( data );
             ErrorDescriptor err;
